@@ -14,19 +14,32 @@ TRUSTED_HELPERS = ("assume_ordering_trusted", "assume_retries_trusted", "assume_
 # The strengthenings are the ground (input guarantee -> output guarantee) steps the call performs under the instantiations the function's own where-clauses admit;
 # a site may perform a subset of what was reviewed, never more.  Reasons are the repository's own nondet!(/** .. */) texts or the documented operator semantics.
 REVIEWED = {
-    "Stream<T, L, B, O, R>::max|assume_retries_trusted": ({"retries AtLeastOnce->ExactlyOnce"}, "max is idempotent"),
-    "Stream<T, L, B, O, R>::max|assume_ordering_trusted_bounded": ({"order NoOrder->TotalOrder"}, "max is commutative, only intermediates depend on order (bounded variant hides them)"),
-    "Stream<T, L, B, O, R>::min|assume_retries_trusted": ({"retries AtLeastOnce->ExactlyOnce"}, "min is idempotent"),
-    "Stream<T, L, B, O, R>::min|assume_ordering_trusted_bounded": ({"order NoOrder->TotalOrder"}, "min is commutative, only intermediates depend on order"),
-    "Stream<T, L, B, O, R>::first|assume_retries_trusted": ({"retries AtLeastOnce->ExactlyOnce"}, "first is idempotent; requires O: IsOrdered (input is TotalOrder in every admitted instantiation)"),
-    "Stream<T, L, B, O, R>::last|assume_retries_trusted": ({"retries AtLeastOnce->ExactlyOnce"}, "last is idempotent; requires O: IsOrdered"),
-    "Stream<T, L, B, O, ExactlyOnce>::count|assume_ordering_trusted": ({"order NoOrder->TotalOrder"}, "counting is order-insensitive; input is ExactlyOnce by the impl header"),
-    "Stream<T, L, B, O, R>::is_empty|assume_ordering_trusted": ({"order NoOrder->TotalOrder"}, "is_empty intermediates unaffected by order; input bounded"),
-    "Stream<T, L, B, O, R>::repeat_with_keys|assume_ordering_trusted": ({"order NoOrder->TotalOrder"}, "keyed stream does not depend on ordering of keys"),
-    "KeyedStream<K, V, L, B, O, R>::value_counts|assume_ordering_trusted": ({"order NoOrder->TotalOrder"}, "per-key counting is order-insensitive; input ExactlyOnce"),
-    "KeyedSingleton<K, V, L, B>::into_singleton|assume_ordering_trusted": ({"order NoOrder->TotalOrder"}, "entries are folded into a HashMap, insertion order is irrelevant"),
-    "hydro_lang::live_collections::keyed_singleton::into_singleton_inside_tick|assume_ordering_trusted": ({"order NoOrder->TotalOrder"}, "entries are folded into a HashMap, insertion order is irrelevant"),
-    "KeyedSingleton<K, V, L, B>::get_max_key|assume_ordering_trusted": ({"order NoOrder->TotalOrder"}, "max over keys is commutative"),
+    'hydro_lang::live_collections::keyed_singleton::into_singleton_inside_tick|assume_ordering_trusted': ({'order NoOrder->TotalOrder @retries=ExactlyOnce,bound=Bounded'},
+        'entries are folded into a HashMap, insertion order is irrelevant (input exactly-once, bounded)'),
+    'KeyedSingleton<K, V, L, B>::into_singleton|assume_ordering_trusted': ({'order NoOrder->TotalOrder @retries=ExactlyOnce,bound=Unbounded', 'order NoOrder->TotalOrder @retries=ExactlyOnce,bound=Bounded'},
+        'entries are folded into a HashMap, insertion order is irrelevant (input exactly-once)'),
+    'KeyedSingleton<K, V, L, B>::get_max_key|assume_ordering_trusted': ({'order NoOrder->TotalOrder @retries=ExactlyOnce,bound=Unbounded', 'order NoOrder->TotalOrder @retries=ExactlyOnce,bound=Bounded'},
+        'one element per key and keys are totally ordered: max over keys is commutative (input exactly-once)'),
+    'KeyedStream<K, V, L, B, O, R>::value_counts|assume_ordering_trusted': ({'order NoOrder->TotalOrder @retries=ExactlyOnce,bound=Unbounded', 'order NoOrder->TotalOrder @retries=ExactlyOnce,bound=Bounded'},
+        'ordering within each group affects neither result nor intermediates (input exactly-once)'),
+    'Stream<T, L, B, O, R>::first|assume_retries_trusted': ({'retries AtLeastOnce->ExactlyOnce @order=TotalOrder,bound=Unbounded', 'retries AtLeastOnce->ExactlyOnce @order=TotalOrder,bound=Bounded'},
+        'first is idempotent — reviewed only for a totally ordered input (O: IsOrdered)'),
+    'Stream<T, L, B, O, R>::last|assume_retries_trusted': ({'retries AtLeastOnce->ExactlyOnce @order=TotalOrder,bound=Unbounded', 'retries AtLeastOnce->ExactlyOnce @order=TotalOrder,bound=Bounded'},
+        'last is idempotent — reviewed only for a totally ordered input (O: IsOrdered)'),
+    'Stream<T, L, B, O, R>::max|assume_retries_trusted': ({'retries AtLeastOnce->ExactlyOnce @order=TotalOrder,bound=Unbounded', 'retries AtLeastOnce->ExactlyOnce @order=NoOrder,bound=Unbounded', 'retries AtLeastOnce->ExactlyOnce @order=TotalOrder,bound=Bounded', 'retries AtLeastOnce->ExactlyOnce @order=NoOrder,bound=Bounded'},
+        'max is idempotent'),
+    'Stream<T, L, B, O, R>::max|assume_ordering_trusted_bounded': ({'order NoOrder->TotalOrder @retries=ExactlyOnce,bound=Unbounded', 'order NoOrder->TotalOrder @retries=ExactlyOnce,bound=Bounded'},
+        'max is commutative, order only affects intermediates (hidden by the bounded variant); applied after retries were made exactly-once'),
+    'Stream<T, L, B, O, R>::min|assume_retries_trusted': ({'retries AtLeastOnce->ExactlyOnce @order=TotalOrder,bound=Unbounded', 'retries AtLeastOnce->ExactlyOnce @order=NoOrder,bound=Unbounded', 'retries AtLeastOnce->ExactlyOnce @order=TotalOrder,bound=Bounded', 'retries AtLeastOnce->ExactlyOnce @order=NoOrder,bound=Bounded'},
+        'min is idempotent'),
+    'Stream<T, L, B, O, R>::min|assume_ordering_trusted_bounded': ({'order NoOrder->TotalOrder @retries=ExactlyOnce,bound=Unbounded', 'order NoOrder->TotalOrder @retries=ExactlyOnce,bound=Bounded'},
+        'min is commutative, order only affects intermediates; applied after retries were made exactly-once'),
+    'Stream<T, L, B, O, ExactlyOnce>::count|assume_ordering_trusted': ({'order NoOrder->TotalOrder @retries=ExactlyOnce,bound=Unbounded', 'order NoOrder->TotalOrder @retries=ExactlyOnce,bound=Bounded'},
+        'order affects neither the eventual count nor intermediate states; input is ExactlyOnce by the impl header'),
+    'Stream<T, L, B, O, R>::is_empty|assume_ordering_trusted': ({'order NoOrder->TotalOrder @retries=AtLeastOnce,bound=Bounded', 'order NoOrder->TotalOrder @retries=ExactlyOnce,bound=Bounded'},
+        'is_empty intermediates unaffected by order; input bounded'),
+    'Stream<T, L, B, O, R>::repeat_with_keys|assume_ordering_trusted': ({'order NoOrder->TotalOrder @retries=ExactlyOnce,bound=Bounded'},
+        'keyed stream does not depend on ordering of keys; input bounded, exactly-once'),
 }
 SHAPE_REVIEWED = {
     "KeyedSingleton<K, V, L, B>::get|cast_at_most_one_element": "a keyed singleton has at most one value per key, so the filtered stream has at most one element",
